@@ -44,7 +44,7 @@ type TreeCase struct {
 	Outside fsx.Tree `json:"outside,omitempty"` // relative to the arena root R (source is R/src)
 	Rules   *string  `json:"rules,omitempty"`
 	Opts    pk.Opts  `json:"opts"`
-	Mode    string   `json:"mode"` // pack | bundle
+	Mode    string   `json:"mode"` // pack | bundle | opendir (the tree is a bundle directory to be opened)
 }
 
 type treeFetcher struct {
@@ -83,6 +83,16 @@ func runTreeCase(raw []byte) watch.Outcome {
 	}
 	if err := fsx.Materialise(r, c.Outside, vars); err != nil {
 		return watch.Outcome{OK: true, Note: "harness: outside: " + err.Error()}
+	}
+	if c.Mode == "opendir" {
+		dir := filepath.Join(r, "src")
+		if err := fsx.Materialise(dir, c.Tree, vars); err != nil {
+			return watch.Outcome{OK: true, Note: "harness: tree: " + err.Error()}
+		}
+		if _, err := sourcebundle.OpenDir(dir); err != nil {
+			return watch.Outcome{OK: true, Err: err.Error()}
+		}
+		return watch.Outcome{OK: true}
 	}
 	// go-slug reports unreadable rule files on stderr; keep the worker's stderr for diagnostics only
 	if c.Mode == "bundle" {
@@ -166,7 +176,7 @@ func checkTree(c TreeCase) error {
 		ev.Infra("worker: %v", err)
 		return nil
 	}
-	if hasHazard(c, "cycle") || hasHazard(c, "fifo") || c.Rules != nil {
+	if hasHazard(c, "cycle") || hasHazard(c, "fifo") || c.Rules != nil || c.Mode == "opendir" {
 		ev.NonTrivial(c, "hazard:"+c.Mode)
 	}
 	switch {
@@ -218,6 +228,9 @@ var hazards = []hazard{
 	{"in-tree-self-loop", fsx.Tree{{Path: "cycself", Kind: "symlink", Target: "cycself"}}, nil},
 	{"in-tree-2-cycle", fsx.Tree{{Path: "cyca", Kind: "symlink", Target: "cycb"}, {Path: "cycb", Kind: "symlink", Target: "cyca"}}, nil},
 	{"in-tree-dir-loop", fsx.Tree{{Path: "d/cycup", Kind: "symlink", Target: ".."}, {Path: "d/cycdot", Kind: "symlink", Target: "."}}, nil},
+	// links whose target runs through the link itself (or through each other) with something behind it
+	{"in-tree-self-through", fsx.Tree{{Path: "cycagain", Kind: "symlink", Target: "cycagain/more"}, {Path: "sub/cycagain2", Kind: "symlink", Target: "../sub/cycagain2/more"}}, nil},
+	{"in-tree-pair-through", fsx.Tree{{Path: "cycone", Kind: "symlink", Target: "cyctwo/x"}, {Path: "cyctwo", Kind: "symlink", Target: "cycone/y"}, {Path: "cycthree", Kind: "symlink", Target: "./cycthree/../cycthree/z"}}, nil},
 	{"ext-self-loop", fsx.Tree{{Path: "l1", Kind: "symlink", Target: "../ext/cycloop"}}, fsx.Tree{{Path: "ext/cycloop", Kind: "symlink", Target: "cycloop"}}},
 	{"ext-2-cycle", fsx.Tree{{Path: "sub/l2", Kind: "symlink", Target: "../../ext/cyc1"}}, fsx.Tree{{Path: "ext/cyc1", Kind: "symlink", Target: "cyc2"}, {Path: "ext/cyc2", Kind: "symlink", Target: "cyc1"}}},
 	{"ext-dir-cycle-dot", fsx.Tree{{Path: "l3", Kind: "symlink", Target: "../ext/cycdir"}}, fsx.Tree{{Path: "ext/cycdir/f", Kind: "file", Content: "OUT:f"}, {Path: "ext/cycdir/cycself", Kind: "symlink", Target: "."}}},
@@ -273,8 +286,25 @@ func TestPropTree(t *testing.T) {
 		c.Rules = genRules(t)
 		c.Opts.Deref = rapid.Bool().Draw(t, "deref")
 		c.Opts.Ignore = rapid.IntRange(0, 3).Draw(t, "ignore") > 0
+		if rapid.IntRange(0, 9).Draw(t, "opendir?") == 0 {
+			// a directory offered as a bundle whose manifest is not a regular file
+			c.Mode, c.Rules = "opendir", nil
+			mh := manifestHazards[rapid.IntRange(0, len(manifestHazards)-1).Draw(t, "manifesthazard")]
+			c.Tree = append(append(fsx.Tree{}, mh.tree...), fsx.Node{Path: "pkgdir/main.tf", Kind: "file", Content: "x", Mode: 0644})
+			c.Outside = mh.outside
+		}
 		return c
 	})
+}
+
+var manifestHazards = []hazard{
+	{"manifest-fifo", fsx.Tree{{Path: "terraform-sources.json", Kind: "fifo"}}, nil},
+	{"manifest-link-to-fifo", fsx.Tree{{Path: "terraform-sources.json", Kind: "symlink", Target: "../ext/mpipe"}}, fsx.Tree{{Path: "ext/mpipe", Kind: "fifo"}}},
+	{"manifest-link-to-dev-zero", fsx.Tree{{Path: "terraform-sources.json", Kind: "symlink", Target: "/dev/zero"}}, nil},
+	{"manifest-dir", fsx.Tree{{Path: "terraform-sources.json", Kind: "dir", Mode: 0755}}, nil},
+	{"manifest-self-link", fsx.Tree{{Path: "terraform-sources.json", Kind: "symlink", Target: "terraform-sources.json"}}, nil},
+	{"manifest-dangling-link", fsx.Tree{{Path: "terraform-sources.json", Kind: "symlink", Target: "nowhere"}}, nil},
+	{"manifest-unreadable", fsx.Tree{{Path: "terraform-sources.json", Kind: "file", Content: "{}", Mode: 0000}}, nil},
 }
 
 // ---------------------------------------------------------------------------
